@@ -9,7 +9,7 @@ import numpy as np
 from skchange.anomaly_scores import BaseLocalAnomalyScore, BaseSaving
 from skchange.change_detectors.base import ChangeDetector
 from skchange.change_scores import BaseChangeScore
-from skchange.costs import BaseCost
+from skchange.costs import BaseCost, L2Cost
 
 # Evaluation counters are kept outside the estimator objects, keyed by a user-chosen tag,
 # so that clone()/reset() of the estimator does not lose them.
@@ -30,10 +30,11 @@ class TableCost(BaseCost):
 
     evaluation_type = "multivariate"
 
-    def __init__(self, table=None, msize=1, tag=None, param=None):
+    def __init__(self, table=None, msize=1, tag=None, param=None, int_output=False):
         self.table = table
         self.msize = msize
         self.tag = tag
+        self.int_output = int_output  # a user cost may well return an integer-typed array (counts)
         super().__init__(param)
 
     @property
@@ -44,7 +45,7 @@ class TableCost(BaseCost):
         return p
 
     def _fit(self, X, y=None):
-        self._t = np.asarray(self.table, dtype=float)
+        self._t = np.asarray(self.table, dtype=np.int64 if self.int_output else float)
         return self
 
     def _evaluate_optim_param(self, starts, ends):
@@ -103,11 +104,12 @@ class TableChangeScore(BaseChangeScore):
 class FunctionChangeScore(BaseChangeScore):
     """score(s, k, e) = hash-like integer function of (s, k, e) and a key: ties, no table."""
 
-    def __init__(self, key=0, modulus=5, msize=1, offset=0):
+    def __init__(self, key=0, modulus=5, msize=1, offset=0, ncols=1):
         self.key = key
         self.modulus = modulus
         self.msize = msize
         self.offset = offset  # scores are value - offset, hence possibly negative
+        self.ncols = ncols    # number of output columns (a univariate-style score has one per variable)
         super().__init__()
 
     @property
@@ -123,7 +125,8 @@ class FunctionChangeScore(BaseChangeScore):
 
     def _evaluate(self, cuts):
         s, k, e = cuts[:, 0], cuts[:, 1], cuts[:, 2]
-        return (self.value(self.key, self.modulus, s, k, e) - self.offset).astype(float).reshape(-1, 1)
+        cols = [(self.value(self.key + 17 * j, self.modulus, s, k, e) - self.offset).astype(float) for j in range(self.ncols)]
+        return np.column_stack(cols)
 
 
 class TableLocalAnomalyScore(BaseLocalAnomalyScore):
@@ -149,11 +152,12 @@ class TableLocalAnomalyScore(BaseLocalAnomalyScore):
 class FunctionLocalAnomalyScore(BaseLocalAnomalyScore):
     """score(s, a, b, e) = small integer function of the cut and a key (ties, no table)."""
 
-    def __init__(self, key=0, modulus=5, msize=1, offset=0):
+    def __init__(self, key=0, modulus=5, msize=1, offset=0, ncols=1):
         self.key = key
         self.modulus = modulus
         self.msize = msize
         self.offset = offset  # scores are value - offset, hence possibly negative
+        self.ncols = ncols
         super().__init__()
 
     @property
@@ -169,7 +173,8 @@ class FunctionLocalAnomalyScore(BaseLocalAnomalyScore):
 
     def _evaluate(self, cuts):
         s, a, b, e = cuts[:, 0], cuts[:, 1], cuts[:, 2], cuts[:, 3]
-        return (self.value(self.key, self.modulus, s, a, b, e) - self.offset).astype(float).reshape(-1, 1)
+        cols = [(self.value(self.key + 17 * j, self.modulus, s, a, b, e) - self.offset).astype(float) for j in range(self.ncols)]
+        return np.column_stack(cols)
 
 
 class L1Cost(BaseCost):
@@ -206,6 +211,30 @@ class L1Cost(BaseCost):
             seg = self._data[s:e]
             out[i] = self.scale * np.abs(seg - self._loc).sum(axis=0)
         return out
+
+
+class TrendPenalisedL2Cost(L2Cost):
+    """A user cost that *subclasses the built-in L2Cost* and overrides its evaluation: the L2 cost plus
+    `weight` times the squared difference between the last and the first row of the interval."""
+
+    def __init__(self, param=None, weight=0.5):
+        self.weight = weight
+        super().__init__(param)
+
+    def _fit(self, X, y=None):
+        super()._fit(X, y)
+        Xa = np.asarray(X, dtype=float)
+        self._rows = Xa.reshape(-1, 1) if Xa.ndim == 1 else Xa
+        return self
+
+    def _extra(self, starts, ends):
+        return self.weight * (self._rows[np.asarray(ends) - 1] - self._rows[np.asarray(starts)]) ** 2
+
+    def _evaluate_optim_param(self, starts, ends):
+        return super()._evaluate_optim_param(starts, ends) + self._extra(starts, ends)
+
+    def _evaluate_fixed_param(self, starts, ends):
+        return super()._evaluate_fixed_param(starts, ends) + self._extra(starts, ends)
 
 
 class FixedChangeDetector(ChangeDetector):
